@@ -19,3 +19,19 @@ mod timelock;
 mod rwa;
 #[cfg(kani)]
 mod gates;
+#[cfg(kani)]
+mod identity;
+#[cfg(kani)]
+mod timelock_ctrl;
+#[cfg(kani)]
+mod votes;
+#[cfg(kani)]
+mod policies;
+#[cfg(kani)]
+mod fee;
+#[cfg(all(kani, feature = "vaultstub"))]
+mod vault;
+#[cfg(kani)]
+mod nft;
+#[cfg(kani)]
+mod nft_enum;
